@@ -6,9 +6,6 @@ import CG.Proofs.Lemmas.GmlLex
 namespace CG.NxGml
 
 def kGraph : List Char := ['g','r','a','p','h']
-def kDirected : List Char := ['d','i','r','e','c','t','e','d']
-def kNode : List Char := ['n','o','d','e']
-def kEdge : List Char := ['e','d','g','e']
 
 /-- the tokens of one node block: `node [ id <i> label "<escape l>" ]` -/
 def nodeToks (i : Nat) (l : List Char) : List Token :=
